@@ -202,7 +202,9 @@ Section Proc.
   (* the segment is consistent with the peer's stream.  [d] = signed 32-bit distance of its
      sequence number from RCV.NXT, so every 32-bit sequence number is allowed; only segments within
      2^30 of RCV.NXT are required to carry the peer's octets (the others are rejected by the
-     window test whatever they contain). *)
+     window test whatever they contain), and only at sequence offsets at or after RCV.NXT: what a
+     segment carries below RCV.NXT is arbitrary (e.g. the garbage octet of a keep-alive probe at
+     SND.NXT-1) - it is trimmed or rejected. *)
   Definition seg_d (s : socket) (r : tcp_repr) : Z := seq_sdiff (r_seq_number r) (tcp_window_start s).
   Definition seg_q (c : Z) (s : socket) (r : tcp_repr) : Z := wsq c s + seg_d s r.
   Definition seg_near (s : socket) (r : tcp_repr) : Prop := - p30 < seg_d s r < p30.
@@ -211,12 +213,13 @@ Section Proc.
     let n := l_len (r_payload r) in
     n <= 65535 /\ 0 <= r_seq_number r < 4294967296 /\
     (seg_near s r ->
-       (forall j, 0 <= j < n -> znth (r_payload r) j = S (seg_q c s r + j)) /\
-       (0 < n -> forall f, F = Some f -> seg_q c s r + n <= f) /\
+       (forall j, 0 <= j < n -> wsq c s <= seg_q c s r + j ->
+                  znth (r_payload r) j = S (seg_q c s r + j)) /\
+       (0 < n -> wsq c s < seg_q c s r + n -> forall f, F = Some f -> seg_q c s r + n <= f) /\
        (r_control r = CFin -> F = Some (seg_q c s r + n))).
 
   Definition have_seg (have : Z -> Prop) (c : Z) (s : socket) (r : tcp_repr) (k : Z) : Prop :=
-    have k \/ (seg_near s r /\ seg_q c s r <= k < seg_q c s r + l_len (r_payload r)).
+    have k \/ (seg_near s r /\ wsq c s <= k /\ seg_q c s r <= k < seg_q c s r + l_len (r_payload r)).
 
   (* --- the payload phase on a synchronised socket --- *)
   Lemma payload_synced (have have' : Z -> Prop) c s cx ip r payload off res W :
